@@ -194,13 +194,20 @@ fn c11_one(acc: &mut Acc, cfg: &Cfg, depth: usize, journal: Option<&JournalFile>
         acc.outcomes.push(format!("{}:{}", cfg.kind.name(), multi.last().map(|x| x.0.split('(').next().unwrap_or("").to_string()).unwrap_or_default()));
     }
     // (b) constant masks
-    let alpha_m = alphabet(cfg, false);
+    let alpha_m = alphabet(cfg, true);
     let hs_m = histories(&alpha_m, depth);
     for h in &hs_m {
         let unmasked = trace::<f64>(cfg, Signal::Noise, h)?;
         for mask in masks_for(n) {
             for empty in [true, false] {
-                let hm: Vec<Op> = h.iter().map(|op| if *op == Op::P { Op::PM(mask, empty) } else { *op }).collect();
+                let hm: Vec<Op> = h
+                    .iter()
+                    .map(|op| match *op {
+                        Op::P => Op::PM(mask, empty),
+                        Op::PP(Some(k)) => Op::PPM(mask, k, empty),
+                        o => o,
+                    })
+                    .collect();
                 if let Some(j) = journal {
                     j.write(&cfg.to_json(), &history_text(&hm));
                 }
@@ -215,7 +222,7 @@ fn c11_one(acc: &mut Acc, cfg: &Cfg, depth: usize, journal: Option<&JournalFile>
                     let mut bad = false;
                     for c in 0..n {
                         let active = (mask >> c) & 1 == 1;
-                        if hm[i] == Op::PM(mask, empty) {
+                        if hm[i] == Op::PM(mask, empty) || matches!(hm[i], Op::PPM(_, _, _)) {
                             if active {
                                 if u.1.get(c) != m.1.get(c) {
                                     acc.fail("C11", cfg, &hm[..=i], "mask-changes-active-channel", format!("step {}: active channel {} differs from the unmasked run (mask {:b})", i, c, mask));
